@@ -69,7 +69,7 @@ pub struct HCase {
 
 /// Run a short usage script of the driver on its reference device (the per-driver checks carry
 /// the feature-gating oracles), leaving the transport event trace in the world.
-fn usage(c: &HCase, st: &mut Stats) -> Result<(), String> {
+pub fn usage(c: &HCase, st: &mut Stats) -> Result<(), String> {
     let mut scratch = Stats::default();
     let _ = st;
     let st = &mut scratch;
